@@ -1,5 +1,6 @@
 import Driver.Codec
 import HG.Model.Rename
+import HG.Model.Validate
 /-! Line protocol driver: one JSON request per line on stdin, one JSON response per line on stdout.
 Evaluates the model's own definitions; malformed requests yield `{"bad": reason}` (never a default). -/
 open Lean HG Driver
@@ -42,6 +43,30 @@ def handle (j : Json) : P Json := do
         ("src", .str e.src), ("dst", .str e.dst),
         ("kind", .str (match e.kind with | .data => "data" | .control => "control" | .ordering => "ordering")),
         ("values", encNames e.values)]).toArray)]).toArray)
+  | "runc" =>
+    -- checked run: resolve select, validate inputs, then execute
+    let prog := elabProgram (← list graphSpec (← field j "program"))
+    let root ← nat (fieldD j "root" (.num (JsonNumber.fromNat (prog.length - 1))))
+    let values ← pairs val (fieldD j "values" (.arr #[]))
+    let cfg ← runCfg (fieldD j "cfg" (Json.mkObj []))
+    let rn ← runner j
+    let ep : Option HG.Name ← (match fieldD j "entrypoint" .null with | .null => pure none | e => do pure (some (← str e)))
+    let policy ← (do match (← str (fieldD j "policy" (.str "warn"))) with
+      | "ignore" => pure OverridePolicy.ignore | "warn" => pure .warn | "error" => pure .error | s => throw s!"bad policy {s}")
+    match runChecked bodySem rn prog root values cfg ep policy with
+    | .rejected e =>
+      let cls := match e with
+        | .missingInput _ => "MissingInputError" | .valueError _ => "ValueError" | .configError _ => "GraphConfigError"
+      pure (Json.mkObj [("rejected", .str cls), ("detail", .str (match e with
+        | .missingInput l => ",".intercalate l | .valueError w => w | .configError w => w))])
+    | .ran out w => pure ((encRunOut out).setObjVal! "overrideWarnings" (.num (JsonNumber.fromNat w)))
+  | "specsel" =>
+    let prog := elabProgram (← list graphSpec (← field j "program"))
+    let g := prog.getD (prog.length - 1) default
+    let sel ← select (fieldD j "select" .null)
+    match resolveRuntimeSelected g sel with
+    | .error _ => pure (Json.mkObj [("rejected", .str "GraphConfigError")])
+    | .ok selected => pure (encSpec (effectiveSpec g selected))
   | "rename" =>
     -- rename bookkeeping: original names, optional constructor batch, successive call batches
     let orig ← list str (← field j "orig")
